@@ -721,6 +721,7 @@ CO_ERR COSdoInitUploadBlock(CO_SDO *srv)
     CO_ERR   err = CO_ERR_SDO_READ;
     uint32_t size;
     uint8_t  cmd;
+    uint8_t  segnum;
 
     err = COSdoGetObject(srv, CO_SDO_RD);
     if (err != CO_ERR_NONE) {
@@ -731,18 +732,19 @@ CO_ERR COSdoInitUploadBlock(CO_SDO *srv)
     if (srv->Blk.Size == 0) {
         return (CO_ERR_SDO_ABORT);
     }
-    srv->Blk.SegNum = CO_GET_BYTE(srv->Frm, 4);
+    segnum = CO_GET_BYTE(srv->Frm, 4);
 
-    if ((srv->Blk.SegNum < 0x01) ||
-        (srv->Blk.SegNum > 0x7F)) {
+    if ((segnum < 0x01) ||
+        (segnum > 0x7F)) {
         COSdoAbort(srv, CO_SDO_ERR_BLK_SIZE);
         COSdoAbortReq(srv);
         return (CO_ERR_SDO_ABORT);
     } else {
-        if (srv->Blk.SegNum > CO_SDO_BUF_SEG) {
-            srv->Blk.SegNum = CO_SDO_BUF_SEG;
+        if (segnum > CO_SDO_BUF_SEG) {
+            segnum = CO_SDO_BUF_SEG;
         }
     }
+    srv->Blk.SegNum = segnum;
 
     size  = srv->Blk.Size;
     cmd   = 0xC2;
@@ -909,17 +911,18 @@ CO_ERR COSdoAckUploadBlock(CO_SDO *srv)
             result = CO_ERR_NONE;
         }
     } else {
-        srv->Blk.SegNum = CO_GET_BYTE(srv->Frm, 2);
-        if ((srv->Blk.SegNum < 0x01) ||
-            (srv->Blk.SegNum > 0x7F)) {
+        val = CO_GET_BYTE(srv->Frm, 2);
+        if ((val < 0x01) ||
+            (val > 0x7F)) {
             COSdoAbort(srv, CO_SDO_ERR_BLK_SIZE);
             COSdoAbortReq(srv);
             return (CO_ERR_SDO_ABORT);
         } else {
-            if (srv->Blk.SegNum > CO_SDO_BUF_SEG) {
-                srv->Blk.SegNum = CO_SDO_BUF_SEG;
+            if (val > CO_SDO_BUF_SEG) {
+                val = CO_SDO_BUF_SEG;
             }
         }
+        srv->Blk.SegNum = val;
         result = COSdoUploadBlock(srv);
     }
     return (result);
